@@ -17,7 +17,23 @@ impl ParsedNames {
 }
 #[verifier::external_body] pub struct Parser { _o: u8 }
 #[verifier::external_body] pub struct LexerMode { _o: u8 }
-pub struct Model { pub workbook: Workbook, pub parsed_defined_names: ParsedNames, pub parser: Parser, pub rest: ModelRest }
+#[verifier::external_body] pub struct Locale { _o: u8 }
+#[verifier::external_body] pub struct Language { _o: u8 }
+pub uninterp spec fn english_locale() -> &'static Locale;
+pub uninterp spec fn english_language() -> &'static Language;
+#[verifier::external_body] pub fn get_default_locale() -> (r: &'static Locale) ensures r == english_locale() { unimplemented!() }
+#[verifier::external_body] pub fn get_default_language() -> (r: &'static Language) ensures r == english_language() { unimplemented!() }
+impl Parser {
+    pub uninterp spec fn loc(&self) -> &Locale;
+    pub uninterp spec fn lang(&self) -> &Language;
+    #[verifier::external_body]
+    pub fn set_locale(&mut self, locale: &Locale) ensures final(self).loc() == locale, final(self).lang() == old(self).lang() { unimplemented!() }
+    #[verifier::external_body]
+    pub fn set_language(&mut self, language: &Language) ensures final(self).lang() == language, final(self).loc() == old(self).loc() { unimplemented!() }
+    #[verifier::external_body]
+    pub fn set_lexer_mode(&mut self, mode: LexerMode) ensures final(self).loc() == old(self).loc(), final(self).lang() == old(self).lang() { unimplemented!() }
+}
+pub struct Model { pub workbook: Workbook, pub parsed_defined_names: ParsedNames, pub parser: Parser, pub locale: &'static Locale, pub language: &'static Language, pub rest: ModelRest }
 pub uninterp spec fn upper(s: Seq<char>) -> Seq<char>;
 pub assume_specification [str::to_uppercase] (s: &str) -> (r: String) ensures r@ == upper(s@);
 #[verifier::external_body]
@@ -51,7 +67,9 @@ pub open spec fn is_entry(d: DefinedName, name: Seq<char>, sheet_id: Option<u32>
 /// defined names are out of its reach (frame by construction)
 #[verifier::external_body]
 pub fn rename_in_all_formulas(parser: &mut Parser, worksheets: &mut Vec<Worksheet>, name: &str, scope: Option<u32>, new_name: &str)
-    ensures final(worksheets)@.len() == old(worksheets)@.len(),
+    requires old(parser).loc() == english_locale(), old(parser).lang() == english_language()      // C10: stored formulas are parsed in English
+    ensures final(parser).loc() == old(parser).loc(), final(parser).lang() == old(parser).lang(),
+        final(worksheets)@.len() == old(worksheets)@.len(),
         forall|k: int| 0 <= k < old(worksheets)@.len() ==> (#[trigger] final(worksheets)@[k]).sheet_id == old(worksheets)@[k].sheet_id,
 { unimplemented!() }
 impl Model {
@@ -62,10 +80,13 @@ impl Model {
 //@stub base/src/model.rs Model::defined_name_context
 //@end
 //@stub base/src/model.rs Model::user_formula_to_internal
-    ensures final(self).workbook == old(self).workbook
+    ensures final(self).workbook == old(self).workbook,
+        // proved for the real function in unit internalform: the parser's locale / language are restored
+        final(self).parser.loc() == old(self).parser.loc(), final(self).parser.lang() == old(self).parser.lang(),
+        final(self).locale == old(self).locale, final(self).language == old(self).language,
 //@end
     #[verifier::external_body]
-    pub fn reset_parsed_structures(&mut self) ensures final(self).workbook == old(self).workbook { unimplemented!() }
+    pub fn reset_parsed_structures(&mut self) ensures final(self).workbook == old(self).workbook, final(self).parser.loc() == old(self).parser.loc(), final(self).parser.lang() == old(self).parser.lang() { unimplemented!() }
 
 //@fn base/src/model.rs Model::new_defined_name
 //@spec
@@ -122,7 +143,10 @@ impl Model {
 //@attr
 #[verifier::loop_isolation(false)]
 //@spec
+    requires old(self).parser.loc() == old(self).locale, old(self).parser.lang() == old(self).language      // the model keeps its parser set to its own locale / language
     ensures r.is_err() ==> final(self).workbook == old(self).workbook,
+        // the parser, switched to English for the rewriting of the stored formulas, is handed back as it was
+        r.is_ok() ==> final(self).parser.loc() == old(self).parser.loc() && final(self).parser.lang() == old(self).parser.lang(),
         // exactly the entry (name, scope) is replaced — new name, the NEW scope's sheet id — and every other defined name stays as it was
         r.is_ok() ==> exists|i: int| 0 <= i < old(self).workbook.defined_names@.len()
             && #[trigger] is_entry(old(self).workbook.defined_names@[i], name@, scope_id(old(self), scope))
